@@ -70,9 +70,15 @@ Theorem C16_sequences : forall (X V : Type) (dX : X) (dV : V) ops (s : sset X V)
   = map (row_at X V dX dV s) (compose_idx ops (seq 0 (length (a_x _ _ s)))).
 Proof. exact ops_refine_top. Qed.
 
+(* concatenation never misaligns rows, whatever optional fields the two sets carry: a field survives only when BOTH have it *)
+Theorem C16_concat_keeps_rows_aligned : forall (X V : Type) (a b : sset X V),
+  wf X V a -> wf X V b -> wf X V (concat2 X V a b).
+Proof. exact concat2_wf. Qed.
+
 Print Assumptions C16_select_uniform.
 Print Assumptions C16_select_unweighted_carries_evidence.
 Print Assumptions C16_select_ess_of_selection.
 Print Assumptions C16_rows_aligned.
 Print Assumptions C16_concat_partition.
+Print Assumptions C16_concat_keeps_rows_aligned.
 Print Assumptions C16_sequences.
